@@ -11,7 +11,7 @@
 use volute::sop::{Esop, Sop};
 use volute::{Lut, Lut0, Lut1, Lut2, Lut3, Lut4, Lut5, Lut6, Lut7, Lut8};
 
-pub const NOPS: u64 = 36;
+pub const NOPS: u64 = 37;
 
 fn fnv(h: &mut u64, bytes: &[u8]) {
     for b in bytes {
@@ -36,7 +36,7 @@ fn dgs(s: &str) -> u64 {
 
 /// Returns Some(digest) for constant-operand operations, None for operations on the drawn table.
 pub fn run(sel: u64, n: usize, drawn: &[u64]) -> (u32, Option<u64>) {
-    let op = (sel % NOPS) as u32;
+    let op = ((sel & 0xff) % NOPS) as u32; // low byte: operation, next byte: argument (fixed mode packs them that way)
     let arg = ((sel >> 8) % 64) as usize;
     let well_formed = drawn.len() == if n <= 6 { 1 } else { 1usize << (n - 6) } && (n >= 6 || drawn[0] >> (1u32 << n) == 0);
     let r = match op {
@@ -75,7 +75,7 @@ pub fn run(sel: u64, n: usize, drawn: &[u64]) -> (u32, Option<u64>) {
             Some(dg(l.blocks()) ^ dg(&[p[0] as u64, p[1] as u64, p[2] as u64]).rotate_left(9))
         }
         7 => {
-            if well_formed && n >= 1 && n <= 6 {
+            if well_formed && n >= 1 && n <= 9 {
                 let l = Lut::from_blocks(n, drawn);
                 let _ = l.top_decomposition(arg % n);
                 let _ = l.is_pos_unate(arg % n);
@@ -264,7 +264,18 @@ pub fn run(sel: u64, n: usize, drawn: &[u64]) -> (u32, Option<u64>) {
                 let _ = l.p_canonization();
                 let _ = l.n_canonization();
             }
+            if well_formed && (n == 7 || n == 8) {
+                // multi-word operands: input-negation canonization only (2^n flips; permutations are out of budget)
+                let _ = Lut::from_blocks(n, drawn).n_canonization();
+            }
             None
+        }
+        36 => {
+            // canonization of multi-word CONSTANT operands
+            let (a, fa) = Lut::majority(7).n_canonization();
+            let (b, fb) = Lut::nth_var(8, arg % 8).n_canonization();
+            let (c, pc) = Lut::threshold(7, 2).p_canonization();
+            Some(dg(a.blocks()) ^ dg(b.blocks()).rotate_left(7) ^ dg(c.blocks()).rotate_left(13) ^ (fa as u64) << 40 ^ (fb as u64) << 20 ^ pc.iter().fold(0u64, |h, &x| h * 7 + x as u64))
         }
         33 => {
             // special shapes of the drawn size: constants and projections through the variable transforms,
